@@ -15,6 +15,7 @@ DIRECT = 'mdb_shard::shard_format::MDBShardInfo::chunk_hash_dedup_query_direct'
 KEYED = 'mdb_shard::shard_format::MDBShardInfo::keyed_chunk_hash'
 INMEM = 'mdb_shard::shard_in_memory::MDBInMemoryShard::chunk_hash_dedup_query'
 MGRQ = 'mdb_shard::shard_file_manager::ShardFileManager::chunk_hash_dedup_query::{closure#0}'
+WRAP = 'mdb_shard::shard_format::MDBShardInfo::chunk_hash_dedup_query'
 LOCAL = 'deduplication::file_deduplication::FileDeduper::<DataInterfaceType>::dedup_query_against_local_data'
 ENTRY_DES = 'mdb_shard::cas_structs::CASChunkSequenceEntry::deserialize'
 
@@ -28,6 +29,8 @@ def run(ctx):
     ctx.guarded('R05b', INMEM, lambda: r05b(ctx))
     ctx.guarded('R05c', MGRQ, lambda: r05c(ctx))
     ctx.guarded('R05d', LOCAL, lambda: r05d(ctx))
+    ctx.rule('R05e', 'the shard-level query hands on one matcher answer unchanged: every Some it returns is the whole (count, entry) pair of a single chunk_hash_dedup_query_direct call, never a count and an entry taken from different candidates')
+    ctx.guarded('R05e', WRAP, lambda: r05e(ctx))
 
 
 def loop_of(a, b):
@@ -432,3 +435,62 @@ def r05d(ctx):
         ctx.check(bool(ie) and (a.rooted_at(ie[0][2], g) or (in_iteration_guarded(a, lp, b, eq) and any(flow.eqv(ie[0][2], r_) for r_ in eq_rhs))), 'R05d', fn, 'bytes.of', '%s:%d' % (a.body['file'], ln), 'the bytes added are new_data[idx].data.len() for the looked-up idx',
                   'the bytes added for a matched chunk are not the length of the chunk at the looked-up position (indexed by %s): the reported byte count of the run is wrong' % (flow.show(ie[0][2])[:40] if ie else '?'))
     ctx.check(latches_guarded(a, lp, eq), 'R05d', fn, 'continue guard', a.loc(lp[0]), 'the loop continues only after such a match')
+
+
+def r05e(ctx):
+    """C05d: with a chunk recorded in several xorbs the candidate loop must not pair the longest count with the first
+    candidate's entry."""
+    a = an(ctx.F.body(WRAP))
+    fn = WRAP
+    ds = a.calls(DIRECT)
+    if not ctx.check(len(ds) >= 1, 'R05e', fn, 'matcher calls', '-', '%d call(s) of the on-disk matcher' % len(ds)):
+        return
+
+    def whole_answer(e, depth=0):
+        """e denotes the complete payload of one matcher call (possibly through a result variable holding whole answers)"""
+        if e[0] == 'agg' and e[1] == 'tuple':
+            comps = [c for (_, c) in e[3]]
+            roots = [a.root_call(c) for c in comps]
+            # identity re-assembly `(n, fse)` of one call's own components, in order
+            return (len(comps) == 2 and all(r is not None and sg(r[1]) == DIRECT for r in roots) and roots[0][3] == roots[1][3]
+                    and all(c[0] == 'field' and c[2] == str(i) and c[1][0] == 'call' for i, c in enumerate(comps)))
+        r = a.root_call(e)
+        if r is not None and sg(r[1]) == DIRECT and e[0] == 'call':
+            return True
+        if e[0] == 'local' and depth < 3:
+            srcs = a.flow.sources(e)
+            if srcs and not (len(srcs) == 1 and srcs[0][2] == e):
+                return all(whole_option(se, depth + 1) or whole_answer(se, depth + 1) for (_, _, se) in srcs)
+        return False
+
+    def whole_option(e, depth=0):
+        if e[0] == 'agg' and e[2].endswith('Option::None'):
+            return True
+        if e[0] == 'agg' and e[2].endswith('Option::Some') and e[3]:
+            return whole_answer(e[3][0][1], depth)
+        r = a.root_call(e)
+        if r is not None and sg(r[1]) == DIRECT and e[0] == 'call':
+            return True         # the matcher's own Option, handed on
+        if e[0] == 'local' and depth < 3:
+            srcs = a.flow.sources(e)
+            if srcs and not (len(srcs) == 1 and srcs[0][2] == e):
+                return all(whole_option(se, depth + 1) for (_, _, se) in srcs)
+        return False
+
+    n = 0
+    for (b, si, k, e) in a.ret_sites():
+        if k == 'err':
+            continue
+        for (sb, ssi, se) in a.flow.sources(e, (b, si)):
+            if se[0] == 'agg' and se[2].endswith('Result::Ok') and se[3]:
+                n += 1
+                ok = whole_option(se[3][0][1])
+                ctx.check(ok, 'R05e', fn, 'answer', a.loc(sb if sb is not None else b, ssi if sb is not None else si), 'the value returned is None or the complete answer of one matcher call',
+                          'the answer returned is assembled from parts (%s): with a chunk recorded in several xorbs the count and the entry can come from different candidates — a run the named xorb does not contain'
+                          % flow.show(se[3][0][1])[:100])
+            elif se[0] == 'call' and a.root_call(se) is not None and sg(a.root_call(se)[1]) == DIRECT:
+                n += 1
+            else:
+                n += 1
+                ctx.check(False, 'R05e', fn, 'answer', a.loc(b, si), '', 'cannot establish that the returned value (%s) is the answer of one matcher call' % flow.show(se)[:80])
+    ctx.floor('R05e', 'returned values inspected', n, 2)
